@@ -105,7 +105,7 @@ func upExec(c *hlib.RunCtx, t *simrt.Tape) (*hlib.Violation, int) {
 	c.Sim = s
 	simrt.Attach(s)
 	defer simrt.Detach()
-	m := &machine{c: c, s: s, t: t, prop: "C05", tele: filepath.Join(c.Dir, "tele"),
+	m := &machine{c: c, s: s, t: t, prop: c.Prop, tele: filepath.Join(c.Dir, "tele"), markerAtSend: map[int]bool{},
 		cfgByTask: map[*simrt.Task]*cfgVersion{}, dlFail: map[*simrt.Task]bool{}, xByTask: map[*simrt.Task][]float64{},
 		acked: map[string][]ack{}, stored: map[string]bool{}, verdict: map[string]int{}, uploaderOf: map[*simrt.Task]int{},
 		reportMaker: map[string]*simrt.Task{}, allMakers: map[string][]*simrt.Task{}, localMaker: map[string]*simrt.Task{}, fatalStatus: map[*simrt.Task]map[string]int{}}
@@ -219,6 +219,35 @@ func upExec(c *hlib.RunCtx, t *simrt.Tape) (*hlib.Violation, int) {
 	for k, n := range s.FaultsHit {
 		c.Notes["fault "+k] += n
 	}
+	if c.Prop == "C08" && m.viol == nil {
+		// C08 after a disk failure: two more runs on a healthy disk. Whatever the
+		// failed call left behind, a week the server acknowledged and that is
+		// recorded as uploaded is not sent again.
+		calls := s.FsCalls
+		s.FaultFn, s.ShortFn = nil, nil
+		for i := 0; i < 2 && m.viol == nil; i++ {
+			p := s.NewProc(fmt.Sprintf("uploader-later-%d", i), nil)
+			tk := s.Spawn(p, p.Name, func() { upload.Run(upload.RunConfig{TelemetryDir: m.tele, UploadURL: uploadURL}) })
+			m.uploaderOf[tk] = 1 + i
+			s.MaxSteps = s.Steps + 100000
+			if s.Run() || !tk.Done {
+				m.fail("waits-forever", "a later upload.Run did not return within the step budget")
+			}
+		}
+		acked := map[string]int{}
+		for _, r := range s.Requests {
+			week := r.URL[strings.LastIndex(r.URL, "/")+1:]
+			if prev, ok := acked[week]; ok && m.markerAtSend[r.Seq] && m.viol == nil {
+				m.fail("resent-after-upload", "after a failed file-system call: week %s was acknowledged (request #%d) and upload/%s.json existed when request #%d sent it again", week, prev, week, r.Seq)
+			}
+			if r.Status == 200 {
+				if _, ok := acked[week]; !ok {
+					acked[week] = r.Seq
+				}
+			}
+		}
+		return m.viol, calls
+	}
 	return m.viol, s.FsCalls
 }
 
@@ -244,6 +273,9 @@ func damageBytes(t *simrt.Tape, data []byte) {
 			off := binary.LittleEndian.Uint32(data[h+4+4*b:])
 			if off != 0 && int(off)+16 < len(data) {
 				binary.LittleEndian.PutUint32(data[off+12:], off)
+				if t.Bool(1, 2) {
+					binary.LittleEndian.PutUint64(data[off:], 0) // ... and holds zero
+				}
 				break
 			}
 		}
